@@ -522,6 +522,176 @@ def c10_zip(job, drv):
         w.close()
 
 
+# ----------------------------------------------------------------------------
+# metadata edited IN PLACE in one long-lived process; references from a fresh interpreter
+# ----------------------------------------------------------------------------
+CACHEFILE = ".cache.pygopherd.dir"
+
+
+def stamp(path):
+    st = os.stat(path)
+    return [st.st_ino, int(st.st_mtime), st.st_size]
+
+
+def edit_file(scratch, p, data, how, mt, frac_ns):
+    """The system calls of an editor / a script changing file p to `data`.
+    how: rplus = open('r+b') and overwrite (same inode, no truncation to zero), trunc = open('wb') (same inode,
+         truncate + write), replace = write a new file elsewhere and rename it over p (new inode)
+    mt:  natural = whatever the kernel stamps, restore = the file's previous mtime put back (os.utime, what
+         `touch -r`, rsync -t, tar, an editor preserving times do), same-second = another instant of the same
+         whole second as the previous mtime (an edit made right after the previous save)"""
+    st = os.stat(p)
+    if how == "rplus":
+        with open(p, "r+b") as f:
+            f.write(data)
+            f.truncate()
+    elif how == "trunc":
+        with open(p, "wb") as f:
+            f.write(data)
+    elif how == "replace":
+        t = os.path.join(scratch, "incoming~")
+        with open(t, "wb") as f:
+            f.write(data)
+        os.replace(t, p)
+    else:
+        raise ValueError(how)
+    if mt == "restore":
+        os.utime(p, ns=(st.st_atime_ns, st.st_mtime_ns))
+    elif mt == "same-second":
+        os.utime(p, ns=(st.st_atime_ns, st.st_mtime_ns // 10 ** 9 * 10 ** 9 + int(frac_ns)))
+    elif mt != "natural":
+        raise ValueError(mt)
+
+
+def fresh_interpreter(drv, job):
+    """Runs one job in a NEW interpreter of the implementation (nothing the present process has loaded, parsed or
+    remembered exists there)."""
+    import json
+    import subprocess
+    p = subprocess.run([sys.executable, os.path.abspath(drv.__file__)], input=json.dumps([job]),
+                       stdout=subprocess.PIPE, stderr=subprocess.PIPE, text=True, env=dict(os.environ), timeout=900)
+    if p.returncode != 0:
+        raise RuntimeError("reference interpreter failed (rc=%d): %s" % (p.returncode, p.stderr[-2000:]))
+    out = json.loads(p.stdout.strip().splitlines()[-1])[0]
+    if not out["ok"]:
+        raise RuntimeError("reference interpreter: " + out["err"] + "\n" + out.get("tb", ""))
+    return out["res"]
+
+
+def c10_refs(job, drv):
+    """Runs in a fresh interpreter: the cacheless listings of directory snapshots (copies of a directory as it was at one
+    moment).  Every snapshot is listed by a forked child of this process, which itself never serves a request: no
+    listing can be influenced by anything an earlier request left behind in memory."""
+    import json
+    out = []
+    for s in job["snaps"]:
+        rfd, wfd = os.pipe()
+        pid = os.fork()
+        if pid == 0:
+            code = 1
+            try:
+                os.close(rfd)
+                try:
+                    cfg = cacheless_config(drv, s["root"], job.get("config"))
+                    drv.init_process(cfg)
+                    data = {"refs": references(drv, cfg, job["protokeys"][s["dir"]])}
+                except BaseException as e:      # noqa
+                    data = {"error": type(e).__name__ + ": " + str(e)}
+                with os.fdopen(wfd, "wb") as f:
+                    f.write(json.dumps(data).encode("ascii"))
+                code = 0
+            finally:
+                os._exit(code)
+        os.close(wfd)
+        with os.fdopen(rfd, "rb") as f:
+            data = f.read()
+        os.waitpid(pid, 0)
+        d = json.loads(data) if data else {"error": "no answer from the listing process"}
+        if "error" in d:
+            raise RuntimeError("reference listing of %s: %s" % (s["root"], d["error"]))
+        out.append(d["refs"])
+    return out
+
+
+def c10_meta(job, drv):
+    """ONE process serves several directories over a long history in which metadata files (.Links, .names, other dot
+    files, .cap/<file>, sidecars, HTML titles, gophermap) are edited IN PLACE -- same inode or not, same length or
+    not, mtime natural / restored / elsewhere in the same second -- with REAL waits on both sides of the lifetime.
+    Every content a directory ever had is copied aside at once (without the cache file, timestamps preserved); the
+    cacheless listings of those copies are computed at the end by a fresh interpreter.  Returns one event stream per
+    directory in the format of c10_history."""
+    import shutil
+    life = int(job["life"])
+    overrides = {k: dict(v) for k, v in (job.get("config") or {}).items()}
+    overrides.setdefault("handlers.dir.DirHandler", {})["cachetime"] = str(life)
+    tree = []
+    for d in job["dirs"]:
+        tree.extend(d["tree"])
+    w = drv.World({"tree": tree, "config": overrides})
+    try:
+        t_start = time.time()
+        snapdir = os.path.join(w.tmp, "snaps")
+        scratch = os.path.join(w.tmp, "scratch")
+        os.makedirs(scratch)
+        snaps = []
+        streams = [[] for _ in job["dirs"]]
+
+        def snapshot(i):
+            name = job["dirs"][i]["name"]
+            root = os.path.join(snapdir, str(len(snaps)), "root")
+            os.makedirs(root)
+            shutil.copytree(os.path.join(w.root, name), os.path.join(root, name), symlinks=True,
+                            ignore=lambda d_, names: [n for n in names if n == CACHEFILE])
+            snaps.append({"root": root, "dir": i})
+            return len(snaps) - 1
+
+        def cachepath(i):
+            return os.path.join(w.root, job["dirs"][i]["name"], CACHEFILE)
+
+        for i in range(len(job["dirs"])):
+            now = int(time.time() * 1000)
+            streams[i].append({"op": "init", "now_ms": now, "shift_s": 0, "snap_ref": snapshot(i)})
+        for o in job["ops"]:
+            k = o["op"]
+            if k == "wait":
+                time.sleep(float(o["s"]))
+            elif k == "sync":
+                # early in a clock second, so that what follows fits into it
+                while not (0.05 <= time.time() % 1.0 <= 0.25):
+                    time.sleep(0.01)
+            elif k == "edit":
+                i = o["dir"]
+                p = os.path.join(w.root, o["path"])
+                before = stamp(p)
+                edit_file(scratch, p, drv.s2b(o["data"]), o["how"], o["mtime"], o.get("frac_ns", 0))
+                now = int(time.time() * 1000)
+                streams[i].append({"op": "mut", "now_ms": now, "shift_s": 0, "snap_ref": snapshot(i),
+                                   "stamp_before": before, "stamp_after": stamp(p),
+                                   "edit": {x: o[x] for x in ("path", "how", "mtime", "len")}})
+            elif k in ("list", "probe"):
+                i = o["dir"]
+                rq = job["protokeys" if k == "list" else "probekeys"][i][o["key"]]
+                r = observed_request(drv, w.config, cachepath(i), drv.s2b(rq["data"]), rq["tls"])
+                r.update({"op": k, "key": o["key"], "shift_s": 0})
+                streams[i].append(r)
+            else:
+                raise ValueError(k)
+        t_ops = time.time()
+        refs = fresh_interpreter(drv, {"op": "c10_refs", "snaps": snaps, "protokeys": job["protokeys"],
+                                       "config": overrides})
+        t_refs = time.time()
+        for st in streams:
+            for r in st:
+                if "snap_ref" in r:
+                    r["refs"] = refs[r.pop("snap_ref")]
+        return {"streams": streams, "snapshots": len(snaps), "secs_history": round(t_ops - t_start, 2),
+                "secs_references": round(t_refs - t_ops, 2)}
+    finally:
+        w.close()
+
+
 def register(OPS, drv):
     OPS["c10_zip"] = lambda job: c10_zip(job, drv)
     OPS["c10_history"] = lambda job: c10_history(job, drv)
+    OPS["c10_meta"] = lambda job: c10_meta(job, drv)
+    OPS["c10_refs"] = lambda job: c10_refs(job, drv)
